@@ -1,4 +1,123 @@
-import ScalesModel.Proofs.HeapInv
+/-
+  Props/C04.lean — per-member load is conserved; removed members drain, then close.
+
+  Same model and invariant as C03 (Proofs/HeapInv.lean).  `outOf s id` counts the dispatch records
+  of node `id` whose `PutWrapper` has not run.  Hypothesis throughout: fewer than 2^31−1
+  dispatches in the history (a load ≥ 0 then always means "marked down").
+-/
+import ScalesModel.Proofs.HeapMisc
 namespace Scales.Heap
-theorem C04_placeholder : True := trivial
+
+/-- **load conservation.**  In every state with the invariant, a node's load is its number of
+    outstanding dispatches measured from `Idle`, or from 0 while it is marked down (load ≥ 0);
+    it is never below `Idle`; a heap node is marked down exactly when it is on the down list. -/
+theorem C04_load_conserved (s : HS) (h : Inv s) (id : Nat) (hl : id < s.nodes.length) :
+    ((s.node id).load ≥ 0 → (s.node id).load = (outOf s id : Int)) ∧
+    ((s.node id).load < 0 → (s.node id).load = Idle + (outOf s id : Int)) ∧
+    Idle ≤ (s.node id).load ∧
+    (InHeap s id → ((s.node id).load ≥ 0 ↔ id ∈ s.down)) := by
+  obtain ⟨a1, a2, a3, _⟩ := h.book.pen_iff id hl
+  exact ⟨a1.mp, a2.mp, a3, fun hin => ⟨h.down.all id hin, fun hd => (h.down.pen id hd).2⟩⟩
+
+/-- the same after every legal operation list with fewer than 2^31−1 dispatches -/
+theorem C04_load_conserved_reachable (ops : List Op) (hok : opsOk HS.init ops = true)
+    (hb : getCount ops < 2147483647) (id : Nat) (hl : id < (runOps HS.init ops).nodes.length) :
+    (((runOps HS.init ops).node id).load ≥ 0 →
+      ((runOps HS.init ops).node id).load = (outOf (runOps HS.init ops) id : Int)) ∧
+    (((runOps HS.init ops).node id).load < 0 →
+      ((runOps HS.init ops).node id).load = Idle + (outOf (runOps HS.init ops) id : Int)) ∧
+    Idle ≤ ((runOps HS.init ops).node id).load := by
+  have hi : Inv (runOps HS.init ops) := by
+    apply Inv_run ops HS.init Inv_init hok
+    show 0 + getCount ops < maxReqs
+    unfold maxReqs; omega
+  obtain ⟨a, b, c, _⟩ := C04_load_conserved _ hi id hl
+  exact ⟨a, b, c⟩
+
+/-- a second completion of the same dispatch (with any draw) changes nothing -/
+theorem C04_put_idempotent (s : HS) (r j j' : Nat) : (s.put r j).put r j' = s.put r j := put_idem s r j j'
+
+/-- a dispatch only ever goes to a node that is in the heap -/
+theorem C04_chosen_is_member (s : HS) (h : Inv s) (id ep r : Nat)
+    (hres : (s.get noHook).2 = GetRes.node id ep r) : InHeap s id := by
+  by_cases hsz : s.size = 0
+  · rw [get_empty s hsz] at hres; simp at hres
+  · obtain ⟨nid, hr, hin, _⟩ := get_facts s h hsz
+    rw [hr] at hres
+    simp only [GetRes.node.injEq] at hres
+    rw [← hres.1]; exact hin
+
+/-- a node that has left the heap never returns to it and is never chosen again, whatever legal
+    operations follow -/
+theorem C04_removed_never_chosen (s : HS) (h : Inv s) (id : Nat) (hl : id < s.nodes.length)
+    (hn : ¬ InHeap s id) (ops : List Op) (hok : opsOk s ops = true)
+    (hb : s.reqs.length + getCount ops < 2147483647) :
+    ¬ InHeap (runOps s ops) id ∧ ∀ ep r, ((runOps s ops).get noHook).2 ≠ GetRes.node id ep r := by
+  obtain ⟨i1, _, r1⟩ := run_removed ops s h hok hb id hl hn
+  exact ⟨r1, fun ep r hc => r1 (C04_chosen_is_member _ i1 id ep r hc)⟩
+
+/-- `leave` takes the member with that endpoint out of the heap -/
+theorem C04_leave_removes (s : HS) (h : Inv s) (ep nid : Nat) (hf : s.findByEp ep = some nid) :
+    InHeap s nid ∧ ¬ InHeap (s.leave ep) nid ∧ nid < (s.leave ep).nodes.length := by
+  obtain ⟨hin, _, f1, _, f3, _⟩ := leave_some s h ep nid hf
+  refine ⟨hin, ?_, by rw [f1]; exact inHeap_lt s h.wf nid hin⟩
+  rw [f3]; exact fun x => x.2 rfl
+
+/-- **close discipline, as a state invariant.**  A node in the heap has not been closed; a removed
+    node has been closed exactly once if it has drained or was marked down, and not at all
+    otherwise. -/
+theorem C04_drain_then_close (s : HS) (h : Inv s) (id : Nat) (hl : id < s.nodes.length) :
+    (InHeap s id → (s.node id).closed = 0) ∧
+    (¬ InHeap s id → (outOf s id = 0 ∨ (s.node id).load ≥ 0) → (s.node id).closed = 1) ∧
+    (¬ InHeap s id → ¬ (outOf s id = 0 ∨ (s.node id).load ≥ 0) → (s.node id).closed = 0) := by
+  refine ⟨h.book.closedIn id, ?_, ?_⟩
+  · intro hn hc; rw [h.book.closedOff id hl hn, if_pos hc]
+  · intro hn hc; rw [h.book.closedOff id hl hn, if_neg hc]
+
+/-- at removal the channel is closed at once iff the node is idle or marked down; nobody else's
+    channel is touched -/
+theorem C04_close_at_leave (s : HS) (h : Inv s) (ep nid : Nat) (hf : s.findByEp ep = some nid) (id : Nat) :
+    ((s.leave ep).node id).closed =
+      (if id = nid then (if (s.node nid).load = Idle ∨ (s.node nid).load ≥ 0 then 1 else 0)
+       else (s.node id).closed) :=
+  ((leave_some s h ep nid hf).2.2.2.2.2 id).2.2.2
+
+/-- a completion closes a channel iff it is the one that empties a removed, healthy node -/
+theorem C04_close_at_put (s : HS) (h : Inv s) (r j nid : Nat) (hreq : s.reqs[r]? = some (nid, false))
+    (hj : s.putDraws nid = true → 1 ≤ j ∧ j ≤ s.size) (id : Nat) :
+    ((s.put r j).node id).closed = (s.node id).closed +
+      (if id = nid ∧ (s.node nid).index < 0 ∧ (s.node nid).load - 1 = Idle then 1 else 0) := by
+  have := (putNode_spec s h r nid j hreq hj).2.closed id
+  unfold HS.put
+  rw [hreq]
+  exact this
+
+/-- **C04, specification level.**  For every legal operation list with fewer than 2^31−1
+    dispatches the history of the model satisfies the executable specification `specC04`
+    (load conservation and close discipline on every observation). -/
+theorem C04_model_satisfies_spec (ops : List Op) (hok : opsOk HS.init ops = true)
+    (hb : getCount ops < 2147483647) : specC04 () ((comp 4).modelTrace () ops) = Verdict.ok := by
+  apply spec_ok 4 ops HS.init {} 0 Inv_init Sim0_init PrevOk_init hok
+  show 0 + getCount ops < maxReqs
+  unfold maxReqs; omega
+
+theorem C04_wf_model_satisfies_spec (ops : List Op) (h : (comp 4).wf () ops = true) :
+    (comp 4).spec () ((comp 4).modelTrace () ops) = Verdict.ok := by
+  have h' : (opsOk HS.init ops && decide (getCount ops < 2147483647)) = true := h
+  rw [Bool.and_eq_true, decide_eq_true_eq] at h'
+  exact C04_model_satisfies_spec ops h'.1 h'.2
+
+/-! non-vacuity: a history with a removal of a loaded member, its drain (completion after
+    removal), a duplicate completion, a re-join of the same endpoint, a mark-down, a resurrection
+    and an idle completion with a drawn slot -/
+def c04Hist : List Op :=
+  [.join 7, .join 8, .chan 0 2, .chan 1 2, .get, .get, .leave 7, .put 0 0, .put 0 0, .join 7, .get,
+   .chan 2 2, .get, .put 1 0, .put 2 2]
+
+set_option maxRecDepth 8000 in
+example : (comp 4).wf () c04Hist = true := by
+  simp [comp, c04Hist, wfOps, opsOk, getCount, step, HS.join, HS.leave, HS.addSink, HS.removeSink, HS.findByEp,
+    HS.fixUp, HS.fixDown, HS.init, HS.size, HS.at, HS.idAt, HS.node, Node.lt, HS.swap, HS.setIndex, HS.setNode,
+    HS.setChan, HS.get, HS.getLoop, HS.scan, noHook, HS.put, HS.putNode, HS.putDraws, Idle, Penalty, chOpen]
+
 end Scales.Heap
